@@ -21,6 +21,11 @@ def rename_keys(t):
     return t
 
 
+def rename_type_key(t):
+    """the key that discriminates the basetypes is not called 'type' (applied last, after every other rewrite)"""
+    return sub_all(t, [('{type:', '{kind:'), ('{type}', '{kind}'), ("'type'", "'kind'"), ('"type"', '"kind"'), ('type=~', 'kind=~')])
+
+
 def rename_types(t):
     t = sub_all(t, [('asset', 'entity'), ('hamlet', 'macbeth'), ('HAMLET', 'MACBETH'), ('macbeth_plugins', 'hamlet_plugins')])
     t = sub_all(t, [('{type:a}', '{type:x}'), (r'{type:(a|\*|\>)}', r'{type:(x|\*|\>)}'), ("'ASSETS': 'a'", "'ASSETS': 'x'"),
@@ -101,6 +106,8 @@ def main():
                 # extrapolation starts at the leaf types while the state templates stay explicitly configured
                 t = re.sub(r"to_extrapolate = \['(\w+)__(state|status)', '(\w+)__(state|status)'\]",
                            r"to_extrapolate = ['\1__file', '\3__file']", t)
+            if variant in ('rename_keys', 'renamed_everything', 'all_changes'):
+                t = rename_type_key(t)
         open(os.path.join(out, name), 'w').write(t)
     if variant in ('all_changes', 'third_path_config'):
         third_path_config(out)
